@@ -169,6 +169,25 @@ pub fn run(toks: &[&str]) -> String {
                 }
             }
         }
+        "sub_cmp" => {
+            let (Some(a), Some(b)) = (unhex_str(toks[1]), unhex_str(toks[2])) else { return "skip non-utf8".into() };
+            match (subsystem_via_idle(&a), subsystem_via_idle(&b)) {
+                (Ok(x), Ok(y)) => {
+                    let eq = x == y;
+                    let mut set = std::collections::HashSet::new();
+                    set.insert(x.clone());
+                    format!(
+                        "eq={} hashcoh={} hset={} names={},{}",
+                        eq as u8,
+                        (!eq || h(&x) == h(&y)) as u8,
+                        set.contains(&y) as u8,
+                        hex(x.as_str().as_bytes()),
+                        hex(y.as_str().as_bytes())
+                    )
+                }
+                (Err(e), _) | (_, Err(e)) => format!("error {}", hex(e.as_bytes())),
+            }
+        }
         _ => "unknown-kind".into(),
     }
 }
